@@ -13,7 +13,7 @@ import types as pytypes
 import z3
 
 from .ctx import Ctx, Explorer, Infeasible, Obligation, PathEnd, Unsupported
-from .interp import Interp, PyExc, func_node, mod_index, ResourceExhausted
+from .interp import CutReached, Interp, PyExc, func_node, mod_index, ResourceExhausted, NONE
 from .sym import *  # noqa: F401,F403
 from .types import *  # noqa: F401,F403
 
@@ -46,7 +46,7 @@ class Target:
 
     def __init__(self, id, func, setup, ensures=(), raises=(), exc_ensures=(), overrides=None, field_types=None,
                  loops=None, unroll=None, classify=None, replay=None, timeout=600, prop=None, note="",
-                 max_paths=20000, bounded=None, oblig_timeout_ms=10000, exit_hook=None):
+                 max_paths=20000, bounded=None, oblig_timeout_ms=10000, exit_hook=None, cut_at=None, start_at=None):
         self.id = id
         self.func = func
         self.setup = setup
@@ -66,6 +66,8 @@ class Target:
         self.bounded = bounded  # text describing the bound when the target is a bounded stand-in
         self.oblig_timeout_ms = oblig_timeout_ms
         self.exit_hook = exit_hook
+        self.cut_at = cut_at
+        self.start_at = start_at
 
     # ------------------------------------------------------------------
     def run(self):
@@ -100,6 +102,7 @@ class Target:
 
         def run_path(ctx):
             I = Interp(ctx, overrides=self.overrides, field_types=self.field_types, loops=self.loops, unroll=self.unroll)
+            I.cut_at = self.cut_at
             try:
                 env = self.setup(I)
                 ctx.path_info = {"kinds": {k: v.kind for k, v in env.items() if isinstance(v, V)}}
@@ -108,7 +111,15 @@ class Target:
                 args = env.get("args", [])
                 kwargs = env.get("kwargs", {})
                 try:
-                    result = I.call_function(live, args, kwargs)
+                    if self.start_at is not None:
+                        result = I.run_function_from(live, self.start_at, env["locals"])
+                    else:
+                        try:
+                            result = I.call_function(live, args, kwargs)
+                        except CutReached as cr:
+                            result = NONE
+                            env["__cut"] = True
+                            env["__locals"] = cr.frame.locals
                 except PyExc as e:
                     if not ctx.is_sat():
                         raise Infeasible()
